@@ -23,7 +23,7 @@ for out in sorted(glob.glob(os.path.join(wt, "out", "[0-9]*"))):
     except Exception:
         meta = {"property": prop, "title": "(meta.json missing or invalid)"}
     meta["property"] = prop
-    meta["round"] = 5
+    meta["round"] = int(os.environ.get("SEED_ROUND", "5"))
     json.dump(meta, open(mp, "w"), indent=1)
     print("==", os.path.basename(dst), meta.get("title"))
     sys.stdout.flush()
